@@ -294,6 +294,11 @@ def run(rep, facts, tier):
     rule_11_7(rep, fx, facts)
     rule_11_8(rep, fx)
 
+    # the attic helper must move all endpoints of the participant (shared with C12 R12.7; added after seed C11e: an entry left behind in the attic is restored later in place
+    # of / in addition to the live one, so a disposed endpoint is matched again and a lost participant's endpoint stays announced)
+    from rules.C12 import rule_move_all
+    rule_move_all(rep, fx, 'R11.9')
+
     # ------------------------------------------------------------ R11.6 crossed roles (shared lint, rdv/swaplint.py)
     from rdv import swaplint
     swaplint.run_rule(rep, facts['default'], 'R11.6', ['rtps::dp_event_loop', 'discovery::discovery_db', 'rtps::reader::Reader::update', 'rtps::writer::Writer::update', 'dds::statusevents'])
